@@ -548,3 +548,52 @@ def guarded(name, fnc, kind="post"):
         return [Ob(name, kind, UNDECIDED, "engine", 0, f"OutOfReach: {e}")]
     except Exception as e:  # noqa
         return [Ob(name, kind, ERROR, "engine", 0, f"{type(e).__name__}: {e}\n{traceback.format_exc()[-1500:]}")]
+
+
+# ---------------------------------------------------------------------------
+_PAR = {}
+
+
+def _par_call(chunk):
+    rep0, worker, items = _PAR["rep"], _PAR["worker"], _PAR["items"]
+    sub = Report(rep0.pid, rep0.tier, rep0.seed)
+    for i in chunk:
+        try:
+            worker(sub, items[i])
+        except OutOfReach as e:
+            sub.add(Ob(f"{rep0.pid}/worker/item{i}", "post", UNDECIDED, "engine", 0, f"OutOfReach: {e}"))
+        except Exception as e:  # noqa
+            sub.add(Ob(f"{rep0.pid}/worker/item{i}", "post", ERROR, "engine", 0, f"{type(e).__name__}: {e}\n{traceback.format_exc()[-1200:]}"))
+    return sub.obs, sub.cases, sub.paths, sub.functions, sub.samples, sub.extra
+
+
+def parallel(rep, items, worker, nproc=None, chunk=None):
+    """Run ``worker(sub_report, item)`` over items in a fork pool and merge into ``rep``.
+
+    Verdicts never depend on timing: each obligation has its own solver budget."""
+    import multiprocessing as mp
+
+    items = list(items)
+    if not items:
+        return
+    if rep.replay_target is not None or len(items) < 4 or os.environ.get("VERIF_SERIAL"):
+        for it in items:
+            worker(rep, it)
+        return
+    nproc = nproc or min(16, os.cpu_count() or 1)
+    chunk = chunk or max(1, len(items) // (nproc * 6))
+    chunks = [list(range(i, min(i + chunk, len(items)))) for i in range(0, len(items), chunk)]
+    _PAR.update(rep=rep, worker=worker, items=items)
+    ctx = mp.get_context("fork")
+    with ctx.Pool(nproc) as pool:
+        for obs, cases, paths, functions, samples, extra in pool.imap(_par_call, chunks):
+            rep.obs.extend(obs)
+            rep.cases += cases
+            rep.paths += paths
+            rep.functions.update(functions)
+            for s_ in samples:
+                rep.sample(s_)
+            for k, v in extra.items():
+                if isinstance(v, (int, float)) and not isinstance(v, bool):
+                    rep.extra[k] = rep.extra.get(k, 0) + v
+    _PAR.clear()
